@@ -50,6 +50,12 @@ CHECKS = {
     "C20": ("exploration", "runtime census monitor with counterfactual ablation + generic size series of krrood-held containers over k/2k/4k iterations",
             "histories create, relate, query and drop instances; weak references must die, nothing may remain in a fresh domain-less query or in the graph's bookkeeping after the sweep, and no krrood-held container (discovered generically) may grow with the iteration count; survivors are attributed by emptying the known query registries",
             "histories without queries are checked strictly; with queries the listed retention finding is recognised only when the survivors die after the ablation", "4/C20"),
+    "C06": ("exploration", "runtime monitor: generated model sources pushed through the real ORMatic pipeline in one subprocess each (generate, import, configure_mappers, create_all), mapper inspection vs expectations from the model spec, cross-process determinism",
+            "random models over the documented grammar are generated from the current tree; the module must import, mappers configure and the schema be created; every class must have its DAO with the right base, a column per public scalar/enum/JSON/type field, a relationship per reference/collection, nothing for underscore fields; two generations under different PYTHONHASHSEEDs must be byte-identical",
+            "expectations come from the generator's own spec of the model; only documented constructs are generated", "4/C06"),
+    "C17": ("exploration", "runtime reference-model monitor + icontract snapshot/ensure contracts: diagrams of generated models vs an independent typing.get_type_hints analysis; diagram snapshot before/after every derived-view / read-only call",
+            "random models (single-module and split modules with TYPE_CHECKING-only imports) and random class sub-sets are diagrammed; nodes, direct-base inheritance edges, association edges and per-field classification flags must equal the independent analysis, and contracts on ten read-only methods assert the (nodes, typed edges) snapshot is unchanged",
+            "_build_rxnode_tree cannot run with the rustworkx_utils of this environment (counted as unavailable); internals _dependency_graph is read for the snapshot", "4/C17"),
     "C09": ("exploration", "runtime monitor: sequential-spec oracle over an exhaustively enumerated (n, constraint) space + icontract post-conditions on the constraint classes",
             "every (solution count n<=N, constraint, bounds around n, selector, domain kind) combination is executed on the real engine and the observed (yielded prefix, exception class) is compared with the sequential specification; contracts watch assert_satisfaction on every call",
             "the harness controls n by construction; exploration is bounded by N (6 quick / 10 thorough + random n<=60)", "4/C09"),
